@@ -697,6 +697,10 @@ type muxWorld struct {
 func newMuxWorld(r *Run, c *muxCfg, script []*writeCall) (*muxWorld, error) {
 	w := &muxWorld{r: r, cfg: c, script: script}
 	r.Scrub = func(s string) string { return prefixRe.ReplaceAllString(s, "PFX_") }
+	// the muxer's URI prefix (crypto/rand in production) comes from the tape
+	pfx := fmt.Sprintf("%06x%06x", r.T.Intn(1<<24), r.T.Intn(1<<24))
+	gohlslib.VerifPrefix = func() string { return pfx }
+	r.Cleanup(func() { gohlslib.VerifPrefix = nil })
 	if c.disk {
 		d, err := os.MkdirTemp("", "verif-mux-")
 		if err != nil {
